@@ -231,6 +231,34 @@ func Line(n int, peerAt []int, twoRouters bool) *Topo {
 	return t
 }
 
+// Fan builds two linked core ASes that are both parents of w leaf ASes; neighbouring leaves peer.
+// Wide fan-out: a core originates on w+1 interfaces at once, a leaf receives two beacons at once
+// and has two peering interfaces (three MACs per extension).
+func Fan(w int) *Topo { return FanP(w, 1) }
+
+// FanP is Fan with every leaf peering with its np successors on the ring of leaves.
+func FanP(w, np int) *Topo {
+	t := &Topo{Name: fmt.Sprintf("F%d", w)}
+	c0 := t.addAS("C0", 1, 0x100, true, 1)
+	c1 := t.addAS("C1", 1, 0x101, true, 1)
+	t.link(c0, c1, Core, 0, 0)
+	var leaves []int
+	for i := 0; i < w; i++ {
+		l := t.addAS(fmt.Sprintf("L%d", i), 1, 0x1000+i, false, 1)
+		t.link(c0, l, Parent, 0, 0)
+		t.link(c1, l, Parent, 0, 0)
+		leaves = append(leaves, l)
+	}
+	for d := 1; d <= np; d++ {
+		for i := 0; i < w; i++ {
+			if j := (i + d) % w; j != i && (d < w-d || (d == w-d && i < j) || w-d <= 0) {
+				t.link(leaves[i], leaves[j], Peer, 0, 0)
+			}
+		}
+	}
+	return t
+}
+
 // Random builds a random topology: up to nas ASes in up to 3 ISDs, multi-router ASes, parallel
 // links, peering links.
 func Random(rng *rand.Rand, nas int) *Topo {
